@@ -477,6 +477,7 @@ fn debug_session(text: &str, markers: &[(u32, u32)], script: &Json) -> DebugOut 
                         2 => Some("undefined_zz + 1".to_owned()),
                         _ => None,
                     };
+                    let cond = if script["no_conditions"].as_bool().unwrap_or(false) { None } else { cond };
                     bps.push((*l, cond));
                 }
             }
@@ -618,6 +619,9 @@ fn debug_session(text: &str, markers: &[(u32, u32)], script: &Json) -> DebugOut 
                             }
                         }
                     }
+                    if std::env::var_os("VERIF_DEBUG_STEPS").is_some() {
+                        eprintln!("STOP n={n} line={line} trace_index={q} entry={:?} previous={resumed:?}", tr.get(q));
+                    }
                     resumed = Some((q, 0));
                 }
                 // After `continue` the program may only stop where a breakpoint is set.
@@ -693,7 +697,7 @@ fn debug_session(text: &str, markers: &[(u32, u32)], script: &Json) -> DebugOut 
                     }
                 }
                 // Change the breakpoint set at some stops.
-                if mode == "breakpoints" && rng.chance(1, 6) {
+                if mode == "breakpoints" && !script["no_conditions"].as_bool().unwrap_or(false) && rng.chance(1, 6) {
                     let p = 20 + rng.below(70);
                     bps = marker_lines.iter().filter(|_| rng.below(100) < p).map(|l| (*l, None)).collect();
                     out.bp_changes.push((out.stops.len(), bps.iter().map(|b| b.0).collect()));
@@ -979,6 +983,34 @@ impl World for C18 {
                 }
             }
         }
+        // Lines holding several statements (a one-line `if` / `for`, `a = 1; b = 2`): a breakpoint
+        // on such a line stops once per execution of the statement the line starts with - whether
+        // or not the statements after it on that line run.
+        if o.violation.is_none() {
+            let k = 1 + (o.digest % 3) as usize;
+            let guard = if (o.digest >> 4) % 2 == 0 { 99 } else { 0 };
+            let mut t = format!("g0 = 10\nglist = [1, 2]\ndef several(n):\n    if n > {guard}: mark(0, n)\n    x = 1; y = x + 1\n    for i in range(2): z = i\n    return n\n");
+            for c in 0..k {
+                t.push_str(&format!("several({})\n", c + 1));
+            }
+            let lines = [(0u32, 4u32), (1, 5), (2, 6)];
+            let d = debug_session(&t, &lines, &json!({"mode": "breakpoints", "bp_percent": 100, "no_conditions": true, "seed": o.digest >> 8, "max_stops": 400}));
+            o.bump("configs.debug_sessions", 1);
+            o.bump("probe.sessions_on_lines_with_several_statements", 1);
+            let expected: Vec<u32> = (0..k).flat_map(|_| [4u32, 5, 6]).collect();
+            if d.stops != expected {
+                o.violate(
+                    "breakpoint-stops-wrong",
+                    "stops/line-with-several-statements",
+                    format!("breakpoints on lines 4, 5, 6 of `{}`: stopped at lines {:?}, expected one stop per execution of the statement each line starts with: {:?}", t.replace('\n', " | "), d.stops, expected),
+                );
+            }
+            for (class, detail) in &d.problems {
+                if o.violation.is_none() {
+                    o.violate(class, "several-statements-session", detail.clone());
+                }
+            }
+        }
         // Debugger sessions.
         let empty = Vec::new();
         for (si, script) in case["sessions"].as_array().unwrap_or(&empty).iter().enumerate() {
@@ -1013,6 +1045,10 @@ impl World for C18 {
             }
             if let Some((c, m)) = d.problems.iter().find(|(c, _)| c == "debugger-stop-without-reason") {
                 o.violate(c, "stop-reason", format!("{what}: {m}"));
+                break;
+            }
+            if let Some((c, m)) = d.problems.iter().find(|(c, _)| c == "debugger-step-wrong") {
+                o.violate(c, "step-selection", format!("{what}: {m}"));
                 break;
             }
             if let Some((c, m)) = d.problems.iter().find(|(c, _)| c == "debugger-top-frame-wrong") {
